@@ -16,7 +16,8 @@ def run(ctx):
     ctx.rule = ("TLC enumerates configurations: identity sets (<= MaxDefs of: directories target-a / lookup-b / lookup-a' x "
                 "names X, Y x versions) with every definition's references drawn from absolute, relative, self, "
                 "case-variant, missing, wrong-version references and ordered pairs of absolute references (chains, "
-                "diamonds, cycles, several versions, duplicates across directories); each is materialised and read; the "
+                "diamonds, cycles, several versions, duplicates across directories and - a second file with the legacy suffix or a port-ID "
+                "prefix - inside one directory); each is materialised and read; the "
                 "identity (file) of every nested type reached through any referrer is compared with the specification's "
                 "resolution, errors by class, path and line. Non-trivial = at least two definitions and one reference")
     ctx.assumptions = ["TLC's evaluation of the specification", "target order is the sorted order read_namespace uses; "
@@ -27,11 +28,13 @@ def run(ctx):
     if ctx.tier == "quick":
         rr.run_cfg(ctx, "Reader_ns2.cfg", "namespace", focus=_focus)                     # every reference kind, 2 definitions
         rr.run_cfg(ctx, "Reader_ns3_lean.cfg", "namespace", sample_mod=8, focus=_focus)  # graph shapes over 3 definitions
+        rr.run_cfg(ctx, "Reader_ns3_twin.cfg", "namespace", sample_mod=24, focus=_focus)  # two files of one name + version in ONE directory
         ctx.exhaustive = False
     else:
         rr.run_cfg(ctx, "Reader_ns2_rich.cfg", "namespace", focus=_focus)
         rr.run_cfg(ctx, "Reader_ns3_lean.cfg", "namespace", focus=_focus)
         rr.run_cfg(ctx, "Reader_ns3.cfg", "namespace", sample_mod=12, focus=_focus)
+        rr.run_cfg(ctx, "Reader_ns3_twin.cfg", "namespace", sample_mod=3, focus=_focus)
         ctx.exhaustive = False
     ctx.sample({"defs": ["d1/a/X.0.1: a.Y.0.1 f1", "d1/a/Y.0.1: b.X.0.1 f1; a.X.0.1 f2 (cycle)", "d2/b/X.0.1"],
                 "expected": "UndefinedDataTypeError at d1/a/Y.0.1:2"})
